@@ -37,3 +37,15 @@ for cfg in extract.CONFIGS:
 with open(os.path.join(HERE, "vlib", "known_fns.json"), "w") as fh:
     json.dump(sorted(keys), fh, indent=0)
 print("recorded %d known functions" % len(keys))
+
+# signatures (return type, parameter types) of the known functions: used to recognise a private function that was only
+# renamed (vlib/inline.py A14)
+sigs = {}
+for cfg in extract.CONFIGS:
+    with open(extract.extract(cfg)) as fh:
+        for d in json.load(fh)["functions"]:
+            if d["kind"] != "closure" and not d["derived"]:
+                sigs.setdefault(d["key"], [l["s"] for l in d["locals"][:d["arg_count"] + 1]])
+with open(os.path.join(HERE, "vlib", "known_sigs.json"), "w") as fh:
+    json.dump(sigs, fh, indent=0, sort_keys=True)
+print("recorded %d signatures" % len(sigs))
